@@ -1,3 +1,13 @@
-import GffProofs.Lemmas.SplitJoin
-open GffProofs
-#print axioms split_join
+import GffProofs.Props.C19
+open GffProofs.C19
+#print axioms create_existing_fails_untouched
+#print axioms create_existing_keeps_file
+#print axioms create_force_fresh
+#print axioms create_force_independent_of_old
+#print axioms create_force_only_new
+#print axioms reads_do_not_write
+#print axioms reads_keep_files
+#print axioms reopen_keeps_files
+#print axioms read_history_no_write
+#print axioms reopen_after_reads
+#print axioms classification
